@@ -522,6 +522,51 @@ def capa_float_stream(ctx, count):
                      {"what": "float-table-mismatch", "detector": mt["detector"]})
 
 
+def capa_l2_end_to_end_stream(ctx, count):
+    """END TO END in binary64 (Properties/C03_binary64_l2.v): CAPA with the L2 saving on ONE float column, no saving table handed over -- Coq runs the kernel twin l2_saving_F and
+    the generic CAPA loop on primitive floats FROM THE DATA and must obtain the implementation's cumulative scores bit for bit and its anomalies; the four boolean premises of the
+    end-to-end near-optimality theorem are evaluated on the same cases."""
+    from skchange.anomaly_detectors import CAPA
+    rng = ctx.rng
+    terms, metas = [], []
+    for it in range(count):
+        n = rng.randint(8, 26)
+        m = rng.choice([2, 3])
+        M = rng.choice([m + 2, 8, n])
+        X = np.asarray([[rng.gauss(0, 1)] for _ in range(n)]) * rng.choice([1.0, 1.0, 0.01, 50.0])
+        sc_ = float(np.std(X)) + 1e-12
+        a = rng.randint(1, n - m - 1)
+        X[a:a + rng.randint(m, min(M, n - a))] += rng.choice([3.0, -4.0]) * sc_
+        X[rng.randrange(n)] += rng.choice([7.0, -9.0]) * sc_
+        ac, ap = float(rng.choice([1.5, 4.25, 9.0])) * sc_ ** 2, float(rng.choice([2.5, 6.0, 12.75])) * sc_ ** 2
+        d = CAPA(min_segment_length=m, max_segment_length=M).fit(X)
+        d.collective_penalty_, d.point_penalty_ = ac, ap
+        y = d.predict(X)
+        scores = d.transform_scores(X).to_numpy().reshape(-1)
+        iv = [(int(l), int(r)) for l, r in zip(y["ilocs"].array.left, y["ilocs"].array.right)]
+        coll, pts = [t for t in iv if t[1] - t[0] > 1], [t for t in iv if t[1] - t[0] == 1]
+        bmax = float(np.max(np.abs(X)))
+        bf = 2.0 ** math.ceil(math.log2(bmax) + 1e-9)
+        magf = 2.0 ** math.ceil(math.log2(16.0 * (float(np.sum(np.abs(X))) ** 2 + (abs(ac) + abs(ap)) * (n + 1) + 1e-300)))
+        terms.append("{| g2_xs := %s; g2_ac := %s; g2_ap := %s; g2_m := %d%%nat; g2_M := %d%%nat; g2_mag := %s; g2_b := %s; g2_scores := %s; g2_coll := %s; g2_pts := %s |}"
+                     % (flist(X[:, 0]), fl(ac), fl(ap), m, M, fl(magf), fl(bf), flist(scores), pairs_nat(coll), pairs_nat(pts)))
+        metas.append({"detector": "CAPA", "saving": "L2Saving", "n": n, "min_segment_length": m, "max_segment_length": M, "alpha_collective": ac, "alpha_point": ap, "X": X.tolist(),
+                      "Magf": magf, "Bf": bf, "impl_anomalies": [list(t) for t in iv], "impl_final_score": float(scores[-1])})
+        ctx.case({"float": "capa-l2-e2e", "it": it, "n": n, "m": m, "x0": float(X[0, 0])}, nontrivial=len(iv) > 0,
+                 sample={"stream": "binary64 end-to-end CAPA(L2Saving)", "n": n, "m": m, "M": M, "impl_anomalies": iv})
+        ctx.count("float_stream", "capa-l2-end-to-end")
+    bad = coq_bad_cases(ctx.cid, HEADER_RUN, "fcl2_case", "fcl2_case_ok", terms, shard=10, tag="fcl2")
+    noprem = coq_bad_cases(ctx.cid, HEADER_RUN, "fcl2_case", "fcl2_case_premise", terms, shard=10, tag="fcl2prem")
+    ctx.notes["binary64_l2_end_to_end_premises"] = f"all four boolean premises of C03_binary64_l2_end_to_end_all_premises_boolean hold on {len(terms) - len(noprem)} of {len(terms)} cases"
+    if len(noprem) > len(terms) // 10:
+        ctx.mismatch(f"the premises of the binary64 end-to-end theorem fail on {len(noprem)} of {len(terms)} ordinary cases", {"first": metas[noprem[0]]}, {"what": "float-e2e-premise"})
+    for i in bad[:20]:
+        mt = metas[i]
+        ctx.mismatch(f"CAPA(L2Saving) on one float column (n={mt['n']}, m={mt['min_segment_length']}, M={mt['max_segment_length']}): the binary64 kernel twin l2_saving_F followed by the "
+                     f"generic CAPA loop on primitive floats does not reproduce the implementation from the DATA (anomalies {mt['impl_anomalies']} / scores bit for bit)", mt,
+                     {"what": "float-end-to-end-mismatch", "detector": "CAPA"})
+
+
 # ------------------------------------------------------------------------------------------------------------------
 # DEFAULT configurations at REALISTIC scale (hundreds to thousands of rows, up to ten columns): the exact correspondences above use short series and
 # small hyper-parameters; defects that need a long series, many columns or the default values (bandwidth 30, max_interval_length 200 / 1000, ...)
